@@ -56,7 +56,7 @@ def long_case(job):
     try:
         big_in = scale(tab["rows"], mult, 0)
         assert len(big_in) == n
-        t = rp.make(dict(tab, rows=big_in))
+        t = rp.make(dict(tab, rows=big_in, title=[]))  # a title would be written into the tsv file
 
         def same(real, model_table, tag=""):
             exp = rp.spec_rows(scale(model_table["rows"], mult, model_table["header"].index("r")))
